@@ -154,6 +154,11 @@ Build(s, pos, k) ==
     [] s = "vi" -> Id("vi")
     [] s = "vl" -> Id("vl")
     [] s = "vm" -> Id("vm")
+    \* compound leaves over the macro variable (chain configurations): a logging / an erroring int and bool
+    [] s = "tx"  -> Call("t", << IntLit(pos), Id("x") >>)
+    [] s = "txp" -> Call("_>_", << Call("t", << IntLit(pos), Id("x") >>), IntLit(0) >>)
+    [] s = "dx"  -> Call("_/_", << IntLit(10), Id("x") >>)
+    [] s = "dxp" -> Call("_>_", << Call("_/_", << IntLit(10), Id("x") >>), IntLit(0) >>)
     [] s = "l0" -> ListE(<< >>)
     [] s = "l12" -> ListE(<< IntLit(1), IntLit(2) >>)
     [] s = "l012" -> ListE(<< IntLit(0), IntLit(1), IntLit(2) >>)
@@ -205,6 +210,10 @@ Src(s, pos, k) ==
     [] s = "sa" -> "'a'"
     [] s = "null" -> "null"
     [] s \in {"x", "y", "vi", "vl", "vm"} -> s
+    [] s = "tx"  -> "t(" \o ToString(pos) \o ", x)"
+    [] s = "txp" -> "(t(" \o ToString(pos) \o ", x) > 0)"
+    [] s = "dx"  -> "(10 / x)"
+    [] s = "dxp" -> "((10 / x) > 0)"
     [] s = "l0" -> "[]"
     [] s = "l12" -> "[1, 2]"
     [] s = "l012" -> "[0, 1, 2]"
